@@ -5,8 +5,8 @@ PID = "C01"
 LEVEL = cc.LEVEL
 BUILDS = cc.BUILDS
 CASE_TIMEOUT = cc.CASE_TIMEOUT
-LEAN_MODULES = ['AsynqModel.Theorems.C01', 'AsynqModel.Theorems.C02', 'AsynqModel.Theorems.SpecC02']
-THEOREMS = ["AsynqModel.Core." + n for n in ['C01_hyps_mono', 'C01_reachW_reach', 'C01_agree_prop', 'C01_agree', 'C01_taskOK_prop', 'C01_taskOK', 'C01_result', 'C02_delivery', 'C02_first_error', 'C02_uncaught', 'C01_reachW_runFuel', 'C01_exReach', 'C01_agree_needs_scoping', 'C01_shape', 'C02_received_trace', 'Spec_C02_accepts', 'Spec_C02_watch_agrees']]
+LEAN_MODULES = ['AsynqModel.Theorems.C01', 'AsynqModel.Theorems.C02', 'AsynqModel.Theorems.SpecC02', 'AsynqModel.Theorems.SpecC07']
+THEOREMS = ["AsynqModel.Core." + n for n in ['C01_hyps_mono', 'C01_reachW_reach', 'C01_agree_prop', 'C01_agree', 'C01_taskOK_prop', 'C01_taskOK', 'C01_result', 'C02_delivery', 'C02_first_error', 'C02_uncaught', 'C01_reachW_runFuel', 'C01_exReach', 'C01_agree_needs_scoping', 'C01_shape', 'C02_received_trace', 'Spec_C02_accepts', 'Spec_C02_watch_agrees', 'Spec_C01_accepts', 'Spec_C07_read_value']]
 MIX = [('full',3),('yield',2),('yield_err',2),('sync',1),('yield_ctx',3)]
 RULE = ("grammar-generated task programs (profiles %s; trees and DAGs of tasks, 1-3 batch kinds with priority overrides "
         "and raising flushes, nested yield structures, errors, try/except, synchronous re-entry, contexts) interpreted on "
